@@ -426,7 +426,7 @@ def run_harness_limited(binary, lines, max_crashes, timeout=None):
     env.setdefault("UBSAN_OPTIONS", "print_stacktrace=1")
     i, crashes, lsan = 0, 0, False
     if timeout is None:
-        timeout = 60 + len(lines) // 400      # a clean run needs about 1 s per 3000 sequences
+        timeout = 20 + len(lines) // 300      # a clean run needs about 1 s per 3000 sequences
     while i < len(lines):
         if crashes >= max_crashes:
             outs.extend([None] * (len(lines) - i))
@@ -456,7 +456,7 @@ def run_harness_limited(binary, lines, max_crashes, timeout=None):
                 j += 1
             if not found and j < len(chunk):
                 outs.append("crash:timeout"); logs[len(outs) - 1] = "the process hung; no single sequence hangs on its own"
-            crashes += 1
+            crashes = max_crashes          # one located hang is enough: every further one costs a full timeout
             i = len(outs)
             continue
         got = o.split("\n")
@@ -602,7 +602,7 @@ def shrink(binary, line, key):
     if not fails(ops):
         return line, None
     changed = True
-    budget = 60
+    budget = 8 if key == "crash:timeout" else 60
     while changed and budget > 0:
         changed = False
         for i in range(len(ops) - 1, -1, -1):
@@ -768,9 +768,12 @@ def run(ctx):
             bl = ("asan", "plain") if o in ("i", "d") else ("asan",)
             if o != rot[0]:
                 enum_block("reduced<=3[p,%s]" % o, 3, ["p", o], False, builds=bl)
+            if ctx.quick() and o not in rot[:2]:
+                continue        # quick: length 4 for two companion types (rotating with the seed), thorough: all four
             n4 += enum_block("reduced=4[p,%s]" % o, 4, ["p", o], False, minlen=4, builds=bl)
-        rules.append("reduced alphabet, for each companion type T in {%s}, held types {probe,T}: all sequences of length 1..4 (%d of length 1..3 for the "
-                     "first T, %d of length 4 in total)" % (", ".join(TAG_NAME[o] for o in companions), n_red3, n4))
+        rules.append("reduced alphabet, for each companion type T in {%s}, held types {probe,T}: all %d sequences of length 1..3; of length 4 for T in {%s}: "
+                     "%d in total" % (", ".join(TAG_NAME[o] for o in companions), n_red3,
+                                      ", ".join(TAG_NAME[o] for o in (rot[:2] if ctx.quick() else rot)), n4))
         # exceptions: the throwing probe (alone and with the counting probe), every copying operation also armed
         n_thr = enum_block("throwing<=3[t,p]", 3, ["t", "p"], False, builds=("asan",), armed=True)
         n_thr += enum_block("throwing=4[t]", 4, ["t"], False, minlen=4, builds=("asan",), armed=True) if not ctx.quick() else 0
